@@ -86,6 +86,7 @@ func runC08(c *core.Ctx) {
 		}
 		wiringRule(c, key, fn, f.pack)
 		crRule(c, key, fn, f.pack)
+		crGuardRule(c, key, fn, f.pack)
 	}
 }
 
